@@ -14,7 +14,7 @@ OM = world.goodwe.OperationMode
 HOSTS = ('10.0.0.2', '10.0.0.3')
 
 OPS = ['read_runtime_data', 'read_eco_1', 'read_scalar', 'write_scalar', 'write_eco', 'set_eco_charge', 'get_mode',
-       'sensor_ids', 'setting_ids', 'read_optional']
+       'sensor_ids', 'setting_ids', 'read_optional', 'read_byte', 'write_byte']
 
 
 def snap(v):
@@ -109,6 +109,10 @@ def do_op(inv, fam, op):
         return inv.get_operation_mode()
     if op == 'read_optional':
         return inv.read_setting({'ET': 'battery_soc_protection', 'DT': 'shadow_scan_pv3', 'ES': 'backup_supply'}[fam])
+    if op == 'read_byte':       # a one-byte setting: shares its 16-bit register with a neighbour (read-modify-write on ET)
+        return inv.read_setting('eco_mode_1_switch') if fam != 'DT' else inv.read_setting('shadow_scan_pv1')
+    if op == 'write_byte':
+        return inv.write_setting('eco_mode_1_switch', 0) if fam != 'DT' else inv.write_setting('shadow_scan_pv1', 0)
     if op in ('sensor_ids', 'setting_ids'):
         async def ids():
             return [x.id_ for x in (inv.sensors() if op == 'sensor_ids' else inv.settings())]
@@ -356,6 +360,12 @@ def run(tier, seed, rep):
     for a in OPS:
         for b in ('read_runtime_data', 'write_scalar', 'set_eco_charge'):
             jobs.append((('ET', 'ET'), ((a,), (b,)), 2, 'tcp'))
+    # one object's single read of a one-byte setting completes BEFORE the other object's write of it starts (a write that
+    # begins together with the read has already taken its decisions): the write is the second call of its object
+    for kinds in PAIRS:
+        for first in ('read_scalar', 'read_byte', 'get_mode'):
+            jobs.append((kinds, (('read_byte',), (first, 'write_byte')), 2, 'udp'))
+            jobs.append((kinds, (('read_byte', 'write_byte'), (first, 'write_byte')), 1, 'udp'))
     for kinds in MUTE_PAIRS:
         for a in ('read_runtime_data', 'read_scalar', 'write_scalar'):
             for b in ('read_runtime_data', 'read_scalar'):
